@@ -15,7 +15,7 @@ CLAIMED["C09"]=dict(
    ref="6 C09")
 CLAIMED["C01"]=dict(
    technique="property-based testing against a reference interpreter: exhaustive enumeration of small well-typed terms + proptest/tape-driven type-directed program generator, independent big-step evaluator as oracle, values read back guided by their type",
-   text="Exhaustive core: every well-typed closed term of <= 6 (quick: 13 082 terms) / <= 7 (thorough: 94 849) nodes over a reduced grammar (literals, variables, let at 7 types, lambda, application incl. partial/over-application, tuple/record construction and projection, Some, match on Option, if, #Int+, #Int<, error), each with optimisation on and off. Exploration: 8k (quick) / 200k (thorough) generated well-typed terminating programs over closures, partial/over-application, rec groups, records (>4 fields, update, projection), tuples, variants, arrays, nested/literal/as patterns, short-circuit operators, failures and host calls, printed in random legal styles and run with optimisation on and off; outcome and host-call log compared with the reference interpreter.",
+   text="Exhaustive core: every well-typed closed term of <= 6 (quick: 13 082 terms) / <= 7 (thorough: 94 849) nodes over a reduced grammar (literals, variables, let at 7 types, lambda, application incl. partial/over-application, tuple/record construction and projection, Some, match on Option, if, #Int+, #Int<, error), each with optimisation on and off. Exploration: 8k (quick) / 200k (thorough) generated well-typed terminating programs over closures, partial/over-application, let-polymorphic helpers (incl. functions returning a record / tuple that holds a closure over their parameter), rec groups, records (>4 fields, update, projection), tuples, variants, arrays, nested/literal/as patterns, short-circuit operators, failures and host calls, printed in random legal styles and run with optimisation on and off; outcome and host-call log compared with the reference interpreter.",
    note="oracle = harness interpreter (strict CBV, left-to-right); do/seq and implicit-argument dispatch beyond the prelude operators are not generated yet; programs the front end rejects are counted inconclusive",
    ref="6 C01")
 CLAIMED["C04"]=dict(
@@ -75,12 +75,12 @@ CLAIMED["C11"]=dict(
    ref="6 C11")
 CLAIMED["C08"]=dict(
    technique="exhaustive enumeration + round-trip property-based testing: (a) every operator chain over a 12-operator fixity table pushed through parse/metadata/reparse_infix and compared with a declarative grouping rule incl. the conflict error; (b) proptest-generated programs printed in random legal concrete styles, parsed by gluon's parser and compared with the generated tree (canonical S-expressions), plus span invariants over the whole parsed tree",
-   text="Exploration: (a) complete: 77k chains (quick: <=4 operators over all 12, 5-6 over the 6 declared; thorough one longer); (b) 20k (quick) / 500k (thorough) programs x styles {explicit in, layout, redundant parentheses, line comments, blank lines, CRLF}; spans must be inside the source, on char boundaries, nested, ordered, and cover exactly the identifier / operator / field name. Found and fixed: the span of #Int+ style operators covered only '#'.",
-   note="the printer parenthesises operands of infix expressions, so precedence-driven grouping is decided by (a) only; block comments and doc comments are not generated in (b)",
+   text="Exploration: (a) complete: 77k chains (quick: <=4 operators over all 12, 5-6 over the 6 declared; thorough one longer); (b) 20k (quick) / 500k (thorough) programs x styles {explicit in, layout, redundant parentheses, line comments, block comments (runs of `*`, `/*`, `//`, quotes, line breaks inside), blank lines, CRLF}; spans must be inside the source, on char boundaries, nested, ordered, and cover exactly the identifier / operator / field name. Found and fixed: the span of #Int+ style operators covered only '#'.",
+   note="the printer parenthesises operands of infix expressions, so precedence-driven grouping is decided by (a) only; doc comments are not generated in (b)",
    ref="6 C08")
 CLAIMED["C10"]=dict(
    technique="metamorphic / round-trip property-based testing of the formatter: generated programs printed in random legal styles (comments, long lines, explicit in, CRLF) and every .glu file of the repository under whitespace perturbation; oracle = formatted text parses to the same canonical tree (after macro expansion and infix regrouping, as format_expr does), same comment sequence, byte-identical literal tokens, second formatting is the identity",
-   text="Exploration: 60k (quick) / 1M (thorough) generated programs + 96 repository files x 4 (8) perturbations. Found and fixed: any let written with `in` was formatted to unparseable text; comments after a rec group's `in` were dropped. Two recorded known findings: comments in positions the formatter never looks at are dropped (comments next to let bindings are still enforced), and broken tuples are re-indented by a second pass.",
+   text="Exploration: 60k (quick) / 1M (thorough) generated programs + 96 repository files x 4 (8) perturbations. A tenth of the generated cases are un-parenthesised operator chains over prelude operators, # primitives and locally defined operators with and without #[infix], with and without the implicit prelude; a fifth of the rest run with the prelude off (operators of unknown fixity). Found and fixed: any let written with `in` was formatted to unparseable text; comments after a rec group's `in` were dropped; operator chains with an operator of unknown fixity were printed with permuted operators. Two recorded known findings: comments in positions the formatter never looks at are dropped (comments next to let bindings are still enforced), and broken tuples are re-indented by a second pass.",
    note="comment positions are classified by the harness (see safe_comments); only the loss of comments outside the enforced positions and a whitespace-only second-pass difference on a broken tuple are matched against the known findings; everything else is a violation",
    ref="6 C10")
 CLAIMED["C18"]=dict(
@@ -100,8 +100,8 @@ CLAIMED["C14"]=dict(
    ref="6 C14")
 CLAIMED["C03"]=dict(
    technique="property-based testing against an independent algorithm W: terms of the ML fragment from an untyped generator (let-polymorphism, rows), from typed-by-construction programs printed without annotations, and from AST mutants; W (levels, ordered closed rows, open rows) decides typability and the principal type; Gluon must accept what W types and report an equivalent type; metamorphic relations (renaming binders, unused binding, annotation with the printed type)",
-   text="Exploration: 8k (quick) / 400k (thorough) terms, 4 checker runs each for the terms W types (about 2/3). Four recorded known findings, all rooted in eager generalisation: pattern lets against a generalised right-hand side, separately generalised record/tuple fields that do not unify (also makes the reported type non-principal and the annotation relation fail), generalised match scrutinees, and open tuple rows printed in unparseable form.",
-   note="only W-typable terms are judged (the converse is not asserted); known findings are matched by features of the checker's error text (inner quantifier in a field, rigid variable vs concrete type, `(a | r)` rendering), anything else is a violation",
+   text="Exploration: 8k (quick) / 400k (thorough) terms (half from the untyped generator, which also puts match / if with function-, record- and option-valued alternatives into positions without an expected type), 4 checker runs each for the terms W types (about 2/3). Found and fixed: a generalised variable captured by the forall of a record field. Five recorded known findings, four rooted in eager generalisation: pattern lets against a generalised right-hand side, separately generalised record/tuple fields that do not unify (also makes the reported type non-principal and the annotation relation fail), generalised match scrutinees, and open tuple rows printed in unparseable form; plus the row defect of KF-C02-01 seen as a closed row reported open.",
+   note="only W-typable terms are judged (the converse is not asserted); known findings are matched by features of the checker's error text (quantifier inside a component, marked span at a field initialiser / tuple or array component, reported type that splits but never merges variables, rigid variable vs concrete type, `(a | r)` rendering, closed row reported open), anything else is a violation",
    ref="6 C03")
 NOT_YET = {}
 def main():
